@@ -120,6 +120,22 @@ def XRow.fields (x : XRow) : List String :=
 
 def XRow.line (x : XRow) : String := "\t".intercalate x.fields
 
+/-- the column names and types `writeAlignments` declares (xmap_reader.py:39-56), `#h` / `#f` first -/
+def xmapColumns : List (String × String) :=
+  [("#h", "#f"), ("XmapEntryID", "int"), ("QryContigID", "int"), ("RefContigID", "int"), ("QryStartPos", "float"),
+   ("QryEndPos", "float"), ("RefStartPos", "float"), ("RefEndPos", "float"), ("Orientation", "string"),
+   ("Confidence", "float"), ("HitEnum", "string"), ("QryLen", "float"), ("RefLen", "float"),
+   ("AlignedRest", "string"), ("LabelChannel", "int"), ("Alignment", "string")]
+
+/-- the deterministic header lines of a written XMAP file (xmap_reader.py:57-64, after the host-name and
+    argument-echo lines): version, the two source paths (absolute), column names, column types -/
+def xmapHeader (refPath qryPath : String) : List String :=
+  [ "# XMAP File Version:\t0.2",
+    "# Reference Maps From:\t" ++ refPath,
+    "# Query Maps From:\t" ++ qryPath,
+    "\t".intercalate (xmapColumns.map (·.1)),
+    "\t".intercalate (xmapColumns.map (·.2)) ]
+
 /-- `BionanoAlignment` as returned by `XmapReader.readAlignments` -/
 structure XRead where
   entryId : Int
